@@ -341,6 +341,14 @@ func (s *StateMachine) ApplyTransactions(ctx context.Context, txs [][]byte, r *l
 			}
 			// set oversize to 'true'
 			oversize = true
+			// the 'oversize' transactions are rolled back with the store below; the in-memory
+			// caches and trackers they touch must be rolled back with them, otherwise EndBlock
+			// reads their effects (fees in cached pools/accounts) and writes them into the block
+			preOversizeSlashTracker := s.slashTracker.Clone()
+			defer func() {
+				s.ResetCaches()
+				s.slashTracker = preOversizeSlashTracker
+			}()
 			// wrap the store in a 'database transaction' to rollback all the 'oversize transactions'
 			if _, e := s.TxnWrap(); e != nil {
 				return e
